@@ -203,3 +203,310 @@ seeded('C06', 'new run-dirty field never reset', 'R6.3',
 benign('C06', 'registry cleared through a model method',
        [('simulator', "        model.output_statistics().clear()\n", "        model.clear_output_statistics()\n"),
         ('model', "    def add_output_statistic(self, key: str, statistic: StatisticsInterface):", "    def clear_output_statistics(self):\n        self._output_statistics.clear()\n\n    def add_output_statistic(self, key: str, statistic: StatisticsInterface):")])
+
+# =====================================================================================================  C07
+seeded('C07', 'hash() of the stream name in the seed again', 'R7.1',
+       [('streams', "(1_000_037 + zlib.crc32(stream_id.encode('utf-8')))", "(1_000_037 + hash(stream_id))")], key='hash')
+seeded('C07', 'id() used as tie-breaker in the heap key', 'R7.1',
+       [('eventlist', "        heapq.heappush(self._event_list, (event.time, -event.priority,\n                                          event._id, event))", "        heapq.heappush(self._event_list, (event.time, -event.priority,\n                                          event._id, id(event), event))")], key='id')
+seeded('C07', 'listeners notified through a set', 'R8.1',
+       [('pubsub', "        for listener in self._listeners.get(event.event_type).copy():\n            listener.notify(event)", "        for listener in set(self._listeners.get(event.event_type)):\n            listener.notify(event)")])
+seeded('C07', 'iteration over the set of event types', 'R7.1',
+       [('statistics', "        self._event_types: set[EventType] = {StatEvents.WEIGHT_DATA_EVENT}\n", "        self._event_types: set[EventType] = {StatEvents.WEIGHT_DATA_EVENT}\n        for et in self._event_types:\n            simulator.add_listener(et, self)\n")], key='iterate')
+seeded('C07', 'global random jitter in the worker wait', 'R7.1',
+       [('simulator', "from time import sleep\n", "from time import sleep\nimport random\n"),
+        ('simulator', "        while not self._runflag and int(time.time() * 1000) - msec < 1000:\n            sleep(0.001)", "        while not self._runflag and int(time.time() * 1000) - msec < 1000:\n            sleep(0.001 * random.random())")], key='random')
+seeded('C07', 'wall clock stored as the simulator time origin', 'R7.1',
+       [('simulator', "            sleep(0.001)\n        self._runflag = False\n", "            sleep(0.001)\n        self._runflag = False\n        self._started_at = time.time()\n")], key='time.time')
+seeded('C07', 'event id used modulo 2 to break ties', 'R7.3',
+       [('simevent', "        if (self._id < other._id):\n            return -1", "        if (self._id % 2 < other._id % 2):\n            return -1")])
+seeded('C07', 'loop-carried local in _run', 'R7.5',
+       [('simulator', "        self._runflag = True\n        while not self.is_stopping_or_stopped():\n            # check if we are done\n", "        self._runflag = True\n        last_time = self._simulator_time\n        while not self.is_stopping_or_stopped():\n            if last_time > self._simulator_time:\n                return\n            # check if we are done\n")])
+benign('C07', 'timeout loop written with a deadline local',
+       [('simulator', "        msec: int = int(time.time() * 1000)\n        while not self._runflag and int(time.time() * 1000) - msec < 1000:\n            sleep(0.001)", "        deadline: int = int(time.time() * 1000) + 1000\n        while not self._runflag and int(time.time() * 1000) < deadline:\n            sleep(0.001)")])
+benign('C07', 'membership test on the event-type set',
+       [('statistics', "        if event.event_type in self._event_types:\n            super().notify(Event(StatEvents.WEIGHT_DATA_EVENT, event.content))", "        if self._event_types.__contains__(event.event_type):\n            super().notify(Event(StatEvents.WEIGHT_DATA_EVENT, event.content))")])
+
+# =====================================================================================================  C08
+FIRE_LOOP = "        for listener in self._listeners.get(event.event_type).copy():\n            listener.notify(event)"
+seeded('C08', 'copy() dropped in fire_event', 'R8.1', [('pubsub', FIRE_LOOP, "        for listener in self._listeners.get(event.event_type):\n            listener.notify(event)")], key='fire_event')
+seeded('C08', 'fire_timed_event stops after the first listener', 'R8.1',
+       [('pubsub', "        for listener in self._listeners.get(timed_event.event_type).copy():\n            listener.notify(timed_event)", "        for listener in self._listeners.get(timed_event.event_type).copy():\n            listener.notify(timed_event)\n            break")], key='fire_timed_event')
+seeded('C08', 'duplicate test dropped in add_listener', 'R8.2',
+       [('pubsub', "        if listener not in self._listeners[event_type]:\n            self._listeners[event_type].append(listener)", "        self._listeners[event_type].append(listener)")])
+seeded('C08', 'new listeners inserted at the front', 'R8.2',
+       [('pubsub', "            self._listeners[event_type].append(listener)", "            self._listeners[event_type].insert(0, listener)")])
+seeded('C08', 'remove_listener without membership test', 'R8.3',
+       [('pubsub', "            if listener in self._listeners[event_type]:\n                self._listeners[event_type].remove(listener)\n                if len(list(self._listeners[event_type])) == 0:\n                    del self._listeners[event_type]",
+         "            self._listeners[event_type].remove(listener)\n            if len(list(self._listeners[event_type])) == 0:\n                del self._listeners[event_type]")], key='remove')
+seeded('C08', 'emptied list keeps its key', 'R8.3',
+       [('pubsub', "                if len(list(self._listeners[event_type])) == 0:\n                    del self._listeners[event_type]", "                pass")], key='delete-empty')
+seeded('C08', 'remove_all_listeners(type) clears everything', 'R8.3',
+       [('pubsub', "            if listener == None:\n                if event_type in self._listeners:\n                    del self._listeners[event_type]", "            if listener == None:\n                self._listeners.clear()")], key='type-given-listener-none')
+seeded('C08', 'remove_all_listeners iterates the live key view', 'R8.3',
+       [('pubsub', "                for et in list(self._listeners.keys()):", "                for et in self._listeners.keys():")])
+seeded('C08', 'fire_timed_event notifies under the wrong key', 'R8.4',
+       [('pubsub', "        if timed_event.event_type not in self._listeners:\n            return", "        if timed_event.event_type not in self._listeners or not timed_event.content:\n            return")])
+seeded('C08', 'metadata length check dropped', 'R8.5',
+       [('pubsub', "                if len(event_type.metadata) != len(content):\n                    raise EventError(\"metadata length but consistent with \"\n                        +\"content length\")\n", "")], key='len')
+seeded('C08', 'dict check only under `check`', 'R8.5',
+       [('pubsub', "            if not isinstance(content, dict):\n                raise EventError(\"event_type defined metadata but content \"\n                    +\"is not specified as a dict\")\n            if check:\n", "            if check and not isinstance(content, dict):\n                raise EventError(\"event_type defined metadata but content \"\n                    +\"is not specified as a dict\")\n            if check:\n")], key='dict')
+seeded('C08', 'TimedEvent stores the timestamp before checking it', 'R8.6',
+       [('pubsub', "        if not isinstance(timestamp, (int, float)):\n            raise EventError(\"timestamp is not an int or a float\")\n        self._timestamp = timestamp\n", "        self._timestamp = timestamp\n        if not isinstance(timestamp, (int, float)):\n            raise EventError(\"timestamp is not an int or a float\")\n")])
+seeded('C08', 'add_listener registers before validating the listener', 'R8.7',
+       [('pubsub', "        if not isinstance(listener, EventListener):\n            raise EventError(\"listener should be an EventListener\")\n        if event_type not in self._listeners:\n            self._listeners[event_type] = []\n", "        if event_type not in self._listeners:\n            self._listeners[event_type] = []\n        if not isinstance(listener, EventListener):\n            raise EventError(\"listener should be an EventListener\")\n")], key='add_listener')
+benign('C08', 'snapshot via list() in both fire loops',
+       [('pubsub', FIRE_LOOP, "        for listener in list(self._listeners.get(event.event_type)):\n            listener.notify(event)"),
+        ('pubsub', "        for listener in self._listeners.get(timed_event.event_type).copy():", "        for listener in list(self._listeners.get(timed_event.event_type)):")])
+benign('C08', 'duplicate guard written as `if l in list: pass else`',
+       [('pubsub', "        if listener not in self._listeners[event_type]:\n            self._listeners[event_type].append(listener)", "        if listener in self._listeners[event_type]:\n            pass\n        else:\n            self._listeners[event_type].append(listener)")])
+
+# =====================================================================================================  C09 / C10
+seeded('C09', 'sample variance guard n > 1 -> n > 0', 'R9.1',
+       [('statistics', "        elif self._n > 1:\n            return self._m2 / (self._n - 1)", "        elif self._n > 0:\n            return self._m2 / (self._n - 1)")], key='variance')
+seeded('C09', 'skewness zero-variance guard dropped', 'R9.1',
+       [('statistics', "            if not var > 0:\n                return math.nan\n", "")], key='skewness')
+seeded('C09', 'sample skewness guard n > 2 -> n > 1', 'R9.1',
+       [('statistics', "            elif n > 2:\n                return (skew_biased", "            elif n > 1:\n                return (skew_biased")], key='skewness')
+seeded('C09', 'sample excess kurtosis guard n > 3 -> n > 2', 'R9.1',
+       [('statistics', "        elif n > 3:\n            g2 = self.excess_kurtosis()", "        elif n > 2:\n            g2 = self.excess_kurtosis()")], key='excess_kurtosis')
+seeded('C09', 'confidence_interval alpha=0 guard dropped', 'R9.1',
+       [('statistics', "        if level >= 1.0:\n            # alpha = 0: 100% confidence; the unbounded interval is clipped \n            # to the observed range, like the intervals below\n            return (self._min, self._max)\n", "")], key='inv_cdf')
+seeded('C09', 'mean() without the n > 0 guard', 'R9.5',
+       [('statistics', "        if self._n > 0:\n            return self._m1\n        return math.nan", "        return self._m1")], key='mean')
+seeded('C09', 'Tally.register counts before validating', 'R9.2',
+       [('statistics', "        if not isinstance(value, (int, float)):\n            raise TypeError(\"tally registered value must be a number\")\n        if math.isnan(value):\n            raise ValueError(\"tally registered value cannot be nan\")\n        if self._n == 0:\n            self._min = +math.inf\n            self._max = -math.inf\n        self._n += 1\n        delta",
+         "        self._n += 1\n        if not isinstance(value, (int, float)):\n            raise TypeError(\"tally registered value must be a number\")\n        if math.isnan(value):\n            raise ValueError(\"tally registered value cannot be nan\")\n        if self._n == 1:\n            self._min = +math.inf\n            self._max = -math.inf\n        delta")], key='Tally')
+seeded('C09', 'm3 forgotten in Tally.initialize', 'R9.3',
+       [('statistics', "        self._m2 = 0.0\n        self._m3 = 0.0\n        self._m4 = 0.0\n", "        self._m2 = 0.0\n        self._m4 = 0.0\n")], key='_m3')
+seeded('C09', 'Counter.register counts the observation twice', 'R9.4',
+       [('statistics', "        self._count += value\n        self._n += 1", "        self._count += value\n        self._n += 2")])
+benign('C09', 'variance guards rewritten (De Morgan / separate ifs)',
+       [('statistics', "        if biased:\n            if self._n > 0:\n                return self._m2 / (self._n)\n        elif self._n > 1:\n            return self._m2 / (self._n - 1)\n        return math.nan",
+         "        if biased and not self._n <= 0:\n            return self._m2 / (self._n)\n        if not biased and self._n >= 2:\n            return self._m2 / (self._n - 1)\n        return math.nan")])
+benign('C09', 'zero variance handled with try/except in skewness',
+       [('statistics', "            var = self.variance()\n            if not var > 0:\n                return math.nan\n            skew_biased = (self._m3 / n) / var ** 1.5 \n", "            var = self.variance()\n            try:\n                skew_biased = (self._m3 / n) / var ** 1.5\n            except ZeroDivisionError:\n                return math.nan\n")])
+
+seeded('C10', 'weighted variance zero-weight guard dropped', 'R10.1',
+       [('statistics', "        if self._n > 0 and self._sum_of_weights > 0:", "        if self._n > 0:")], key='weighted_variance')
+seeded('C10', 'sample weighted variance guard n_nonzero > 1 -> > 0', 'R10.1',
+       [('statistics', "            elif self._n_nonzero > 1:", "            elif self._n_nonzero > 0:")], key='weighted_variance')
+seeded('C10', 'zero-weight early return dropped', 'R10.1',
+       [('statistics', "        if weight == 0.0:\n            return\n", "")], key='register')
+seeded('C10', 'negative weight accepted', 'R10.1',
+       [('statistics', "        if weight < 0:\n            raise ValueError(\"tally weight cannot be < 0\")\n", "")])
+seeded('C10', 'timestamp order guard after the write', 'R10.2',
+       [('statistics', "        if timestamp < self._last_timestamp:\n            raise ValueError(\"tally timestamp before last timestamp\")\n", "        self._last_value = value\n        if timestamp < self._last_timestamp:\n            raise ValueError(\"tally timestamp before last timestamp\")\n")], key='TimestampWeightedTally')
+seeded('C10', '_n_nonzero forgotten in initialize', 'R10.3',
+       [('statistics', "        self._n = 0\n        self._n_nonzero = 0\n        self._sum_of_weights = 0.0\n", "        self._n = 0\n        self._sum_of_weights = 0.0\n")], key='_n_nonzero')
+seeded('C10', 'accumulation ignores the active flag', 'R10.4',
+       [('statistics', "                or timestamp > self._last_timestamp) and self._active:", "                or timestamp > self._last_timestamp):")], key='accumulate')
+seeded('C10', 'interval weighted with the new value', 'R10.4',
+       [('statistics', "                super().register(deltatime, self._last_value)", "                super().register(deltatime, value)")], key='accumulate')
+seeded('C10', 'end_observations does not deactivate', 'R10.4',
+       [('statistics', "        self.register(timestamp, self._last_value)\n        self._active = False", "        self.register(timestamp, self._last_value)")], key='end_observations')
+seeded('C10', 'weighted mean without n guard', 'R10.5',
+       [('statistics', "        if self._n > 0:\n            return self._weighted_mean\n        return math.nan", "        return self._weighted_mean")], key='weighted_mean')
+benign('C10', 'weighted variance guard split into nested ifs',
+       [('statistics', "        if self._n > 0 and self._sum_of_weights > 0:\n            w_pop_var", "        if self._n > 0:\n          if self._sum_of_weights > 0:\n            w_pop_var"),
+        ('statistics', "            if biased:\n                return w_pop_var\n            elif self._n_nonzero > 1:\n                return w_pop_var * self._n_nonzero / (self._n_nonzero - 1)", "            if biased:\n                return w_pop_var\n            if self._n_nonzero >= 2:\n                return w_pop_var * self._n_nonzero / (self._n_nonzero - 1)")])
+
+# =====================================================================================================  C11
+seeded('C11', 'SimWeightedTally does not subscribe to WARMUP', 'R11.1',
+       [('statistics', "        EventBasedWeightedTally.__init__(self, name)\n        simulator.add_listener(ReplicationInterface.WARMUP_EVENT, self)\n", "        EventBasedWeightedTally.__init__(self, name)\n")], key='SimWeightedTally')
+seeded('C11', 'SimPersistent does not subscribe to END_REPLICATION', 'R11.1',
+       [('statistics', "        simulator.add_listener(ReplicationInterface.END_REPLICATION_EVENT, self)\n", "")], key='END_REPLICATION')
+seeded('C11', 'SimTally assigns _simulator after the base constructor', 'R11.1',
+       [('statistics', "        self._simulator = simulator\n        EventBasedTally.__init__(self, name)\n", "        EventBasedTally.__init__(self, name)\n        self._simulator = simulator\n")], key='SimTally')
+seeded('C11', 'SimWeightedTally forwards a constant instead of the content', 'R11.2',
+       [('statistics', "            super().notify(Event(StatEvents.WEIGHT_DATA_EVENT, event.content))", "            super().notify(Event(StatEvents.WEIGHT_DATA_EVENT, (1.0, event.content[1])))")], key='SimWeightedTally')
+seeded('C11', 'SimPersistent closes at time 0 instead of the clock', 'R11.2',
+       [('statistics', "            self.end_observations(self.simulator.simulator_time)", "            self.end_observations(0.0)")], key='SimPersistent')
+seeded('C11', 'SimPersistent ignores warm-up', 'R11.2',
+       [('statistics', "                    StatEvents.TIMESTAMP_DATA_EVENT, event.content))\n        elif event.event_type == ReplicationInterface.WARMUP_EVENT:\n            self.initialize()\n", "                    StatEvents.TIMESTAMP_DATA_EVENT, event.content))\n        elif event.event_type == ReplicationInterface.WARMUP_EVENT:\n            pass\n")], key='SimPersistent')
+seeded('C11', 'get_output_statistic returns by name lookup of the wrong dict', 'R11.3',
+       [('model', "        return self._output_statistics[key]", "        return self._input_parameters.get(key)")])
+seeded('C11', 'warm-up at MIN_PRIORITY', 'R11.4',
+       [('simulator', "            self, \"warmup\", priority=SimEventInterface.MAX_PRIORITY)", "            self, \"warmup\", priority=SimEventInterface.MIN_PRIORITY)")])
+seeded('C11', 'SimTally publishes the population variance as sample variance', 'R11.5',
+       [('statistics', "        self.fire_timed(t, StatEvents.SAMPLE_VARIANCE_EVENT,\n                        self.variance(False))", "        self.fire_timed(t, StatEvents.SAMPLE_VARIANCE_EVENT,\n                        self.variance())")], key='SAMPLE_VARIANCE')
+seeded('C11', 'EventBasedTally publishes min under MAX', 'R11.5',
+       [('statistics', "        self.fire(StatEvents.MAX_EVENT, self.max())\n        self.fire(StatEvents.SUM_EVENT, self.sum())", "        self.fire(StatEvents.MAX_EVENT, self.min())\n        self.fire(StatEvents.SUM_EVENT, self.sum())")], key='MAX_EVENT')
+seeded('C11', 'SimCounter timestamps with 0', 'R11.5',
+       [('statistics', "        self.fire_timed(self.simulator.simulator_time,\n                        StatEvents.COUNT_EVENT, self.count())", "        self.fire_timed(0.0,\n                        StatEvents.COUNT_EVENT, self.count())")], key='COUNT_EVENT')
+seeded('C11', 'end_replication leaves the clock where it was', 'R11.6',
+       [('simulator', "            print(\"warning: end_replication called with simtime < runlength\")\n            self._simulator_time = self._replication.end_sim_time", "            print(\"warning: end_replication called with simtime < runlength\")")])
+benign('C11', 'subscription through self._simulator',
+       [('statistics', "        EventBasedWeightedTally.__init__(self, name)\n        simulator.add_listener(ReplicationInterface.WARMUP_EVENT, self)\n", "        EventBasedWeightedTally.__init__(self, name)\n        self._simulator.add_listener(ReplicationInterface.WARMUP_EVENT, self)\n")])
+
+# =====================================================================================================  C12
+seeded('C12', 'class-level shared Random()', 'R12.1',
+       [('streams', "        self._original_seed: int = seed\n        self._random: Random = Random()\n", "        self._original_seed: int = seed\n        self._random: Random = MersenneTwister._shared\n"),
+        ('streams', "        return self._original_seed\n", "        return self._original_seed\n\n    _shared = Random()\n")],
+       accept_analysis_error=True)
+seeded('C12', 'generator handed out', 'R12.1',
+       [('streams', "    def reset(self):\n        \"\"\"\n        Reset the stream to use the seed value.", "    def generator(self):\n        return self._random\n\n    def reset(self):\n        \"\"\"\n        Reset the stream to use the seed value.")], key='escape')
+seeded('C12', 'next_bool uses the global generator', 'R12.1b',
+       [('streams', "from random import Random\n", "from random import Random\nimport random\n"),
+        ('streams', "        return self._random.random() < 0.5", "        return random.random() < 0.5")])
+seeded('C12', 'next_int consumes two draws', 'R12.2',
+       [('streams', "        return lo + math.floor((hi - lo + 1) * self._random.random())", "        self._random.random()\n        return lo + math.floor((hi - lo + 1) * self._random.random())")], key='next_int')
+seeded('C12', 'next_bool consumes no draw for a cached value', 'R12.2',
+       [('streams', "        return self._random.random() < 0.5", "        if getattr(self, '_flip', False):\n            self._flip = False\n            return True\n        self._flip = True\n        return self._random.random() < 0.5")], key='next_bool')
+seeded('C12', 'reset re-seeds with the original seed', 'R12.3',
+       [('streams', "        self.set_seed(self._seed)", "        self.set_seed(self._original_seed)")], key='reset')
+seeded('C12', 'set_seed seeds with seed+1', 'R12.3',
+       [('streams', "        self._random.seed(seed)", "        self._random.seed(seed + 1)")], key='set_seed')
+seeded('C12', 'restore_state re-seeds instead of restoring', 'R12.4',
+       [('streams', "        self._random.setstate(state)", "        self._random.seed(self._seed)")], key='restore_state')
+benign('C12', 'set_seed seeds from the stored field',
+       [('streams', "        self._seed: int = seed\n        self._random.seed(seed)", "        self._seed: int = seed\n        self._random.seed(self._seed)")])
+
+# =====================================================================================================  C13
+seeded('C13', 'hash() back in the fallback updater', 'R13.1',
+       [('streams', "(1_000_037 + zlib.crc32(stream_id.encode('utf-8')))", "(1_000_037 + hash(stream_id))")])
+seeded('C13', 'seed mixed with the wall clock', 'R13.1',
+       [('streams', "        stream.set_seed(stream.original_seed() + replication_nr * ", "        stream.set_seed(int(time.time()) + stream.original_seed() + replication_nr * ")])
+seeded('C13', 'unguarded seed-table lookup again', 'R13.2',
+       [('streams', "        if self._stream_seeds.get(stream_id) is None:", "        if self._stream_seeds[stream_id] is None:")])
+seeded('C13', 'updater counts its calls into the seed', 'R13.3',
+       [('streams', "        if replication_nr < 0:\n            raise ValueError(\"replication_nr < 0\")\n        stream.set_seed(stream.original_seed()", "        if replication_nr < 0:\n            raise ValueError(\"replication_nr < 0\")\n        self._calls = getattr(self, '_calls', 0) + 1\n        stream.set_seed(self._calls + stream.original_seed()")], key='state')
+seeded('C13', 'driver passes the same stream for every key', 'R13.3',
+       [('streams', "            self.update_seed(key, streams[key], replication_nr)", "            self.update_seed(key, streams['default'], replication_nr)")], key='update_seeds')
+seeded('C13', 'negative replication number accepted', 'R13.4',
+       [('streams', "        if replication_nr < 0:\n            raise ValueError(\"replication_nr < 0\")\n        if self._stream_seeds.get", "        if self._stream_seeds.get")], key='StreamSeedUpdater')
+seeded('C13', 'replication number beyond the seed list: `>` instead of `>=`', 'R13.4',
+       [('streams', "            if replication_nr >= len(self._stream_seeds[stream_id]):", "            if replication_nr > len(self._stream_seeds[stream_id]):")], key='StreamSeedUpdater')
+benign('C13', 'lookup guarded by `in`',
+       [('streams', "        if self._stream_seeds.get(stream_id) is None:", "        if stream_id not in self._stream_seeds:")])
+
+# =====================================================================================================  C14
+seeded('C14', 'Exponential draws log(u) with u in [0,1) again', 'R14.1',
+       [('distributions', "        return -self._mean * math.log(self._next_positive_float())", "        return -self._mean * math.log(self._stream.next_float())")], key='DistExponential')
+seeded('C14', 'positive-uniform helper no longer redraws', 'R14.1',
+       [('distributions', "        while u == 0.0:\n            u = self._stream.next_float()\n        return u", "        return u")])
+seeded('C14', 'Normal polar loop accepts s == 0', 'R14.1',
+       [('distributions', "        while s >= 1.0 or s == 0.0:", "        while s >= 1.0:")], key='_next_gaussian')
+seeded('C14', 'Gamma accepts shape = 0', 'R14.1',
+       [('distributions', "        if shape <= 0:\n            raise ValueError(f\"parameter shape {shape} should be > 0\")", "        if shape < 0:\n            raise ValueError(f\"parameter shape {shape} should be > 0\")")], key='DistGamma')
+seeded('C14', 'Uniform accepts hi == lo (then pdf divides by zero: C15) and Triangular lo == hi', 'R14.1',
+       [('distributions', "        if lo == hi:\n            raise ValueError(f\"parameter lo {lo} == hi {hi}\")\n", "")], key='DistTriangular')
+seeded('C14', 'Beta does not rebuild its second gamma on re-pointing', 'R14.2',
+       [('distributions', "        self._dist1 = DistGamma(self._stream, self._alpha1, 1.0)\n        self._dist2 = DistGamma(self._stream, self._alpha2, 1.0)", "        self._dist1 = DistGamma(self._stream, self._alpha1, 1.0)\n        if self._dist2 is None:\n            self._dist2 = DistGamma(self._stream, self._alpha2, 1.0)")], key='_dist2')
+seeded('C14', 'Pearson5 builds its gamma in the constructor only', 'R14.2',
+       [('distributions', "        super()._set_stream(stream)\n        self._dist = DistGamma(stream, self._alpha, 1.0 / self._beta)", "        super()._set_stream(stream)\n        if getattr(self, '_dist', None) is None:\n            self._dist = DistGamma(stream, self._alpha, 1.0 / self._beta)")], key='_dist')
+seeded('C14', 'Erlang assigns k after the base constructor', 'R14.2',
+       [('distributions', "        self._scale = float(scale)\n        self._k = k\n        self._lambda = 1.0 / scale\n        super().__init__(stream)  # after setting k and scale", "        self._scale = float(scale)\n        self._lambda = 1.0 / scale\n        super().__init__(stream)  # after setting k and scale\n        self._k = k")], key='_k')
+seeded('C14', 'Normal keeps the saved gaussian across re-pointing', 'R14.3',
+       [('distributions', "        super()._set_stream(stream)\n        self._have_saved_gaussian = False  # helper variable", "        super()._set_stream(stream)")], key='_have_saved_gaussian')
+seeded('C14', 'class-level cache shared by all Poisson instances', 'R14.4',
+       [('distributions', "class DistPoisson(DistDiscrete):\n", "class DistPoisson(DistDiscrete):\n    _cache = {}\n")], key='_cache')
+seeded('C14', 'LogNormal returns the underlying normal draw', 'R14.5',
+       [('distributions', "        return math.exp(super().draw())", "        return super().draw()")], key='DistLogNormal')
+seeded('C14', 'NormalTrunc returns the unclamped value on the high side', 'R14.5',
+       [('distributions', "            if abs(d - self._hi) < 1E-6 * abs(self._hi):\n                return self._hi", "            if abs(d - self._hi) < 1E-6 * abs(self._hi):\n                return d")], key='DistNormalTrunc')
+seeded('C14', 'ForceDist draws an Energy', 'R14.6',
+       [('units', "        return Force(self._dist.draw(), self._unit)", "        return Energy(self._dist.draw(), self._unit)")], key='ForceDist')
+benign('C14', 'helper written as while True / break',
+       [('distributions', "        u: float = self._stream.next_float()\n        while u == 0.0:\n            u = self._stream.next_float()\n        return u", "        while True:\n            u: float = self._stream.next_float()\n            if u != 0.0:\n                break\n        return u")])
+benign('C14', 'Exponential via 1 - u in (0, 1]',
+       [('distributions', "        return -self._mean * math.log(self._next_positive_float())", "        return -self._mean * math.log(1.0 - self._stream.next_float())")])
+
+# =====================================================================================================  C15
+seeded('C15', 'triangular density divides by (mode - lo) = 0 again', 'R15.1',
+       [('distributions', "        if x >= self._lo and x <= self._mode and self._mode > self._lo:", "        if x >= self._lo and x <= self._mode:")], key='DistTriangular')
+seeded('C15', 'Exponential density negative', 'R15.1',
+       [('distributions', "            return (1.0 / self._mean) * math.exp(-x / self._mean) ", "            return (-1.0 / self._mean) * math.exp(-x / self._mean) ")], key='DistExponential')
+seeded('C15', 'Gamma density evaluated at x = 0 (0 ** negative)', 'R15.1',
+       [('distributions', "        if x > 0:\n            return ((self._scale ** -self._shape) * (x ** (self._shape - 1))", "        if x >= 0:\n            return ((self._scale ** -self._shape) * (x ** (self._shape - 1))")], key='DistGamma')
+seeded('C15', 'LogNormal density takes log of x <= 0', 'R15.1',
+       [('distributions', "        if x > 0.0:\n            xminmu = math.log(x) - self._mu", "        if x >= 0.0:\n            xminmu = math.log(x) - self._mu")], key='DistLogNormal')
+seeded('C15', 'Uniform density positive above hi', 'R15.2',
+       [('distributions', "        if self._lo <= x <= self._hi:\n            return 1.0 / (self._hi - self._lo) ", "        if self._lo <= x:\n            return 1.0 / (self._hi - self._lo) ")], key='DistUniform')
+seeded('C15', 'truncated normal cdf returns 0 above hi', 'R15.2',
+       [('distributions', "        if x > self._hi:\n            return 1.0\n", "        if x > self._hi:\n            return 0.0\n")], key='DistNormalTrunc')
+seeded('C15', 'Binomial probability for observation > n', 'R15.2',
+       [('distributions', "        if isinstance(observation, int) and 0 <= observation <= self._n:", "        if isinstance(observation, int) and 0 <= observation:")], key='DistBinomial')
+seeded('C15', 'erf_inv third branch reaches ax = 1', 'R15.3',
+       [('utils', "    elif 0.9375 <= ax <= (1.0 - 1.0e-9):", "    elif 0.9375 <= ax <= 1.0:")], key='erf_inv')
+seeded('C15', 'truncated-normal inverse accepts y > 1', 'R15.3',
+       [('distributions', "        if y < 0 or y > 1:\n            raise ValueError(f\"probability {y} not inn interval [0, 1]\")", "        if y < 0:\n            raise ValueError(f\"probability {y} not inn interval [0, 1]\")")])
+benign('C15', 'triangular density with the guard on the denominator',
+       [('distributions', "        if x >= self._lo and x <= self._mode and self._mode > self._lo:", "        if self._lo <= x <= self._mode and self._mode - self._lo > 0:")])
+
+# =====================================================================================================  C16
+seeded('C16', 'Length * Length declared to be a Volume', 'R16.1',
+       [('units', "Length._mul = {Length: Area, Area: Volume,", "Length._mul = {Length: Volume, Area: Volume,")], key='Length._mul[Length]')
+seeded('C16', 'Speed / Duration declared to be a Length', 'R16.1',
+       [('units', "Speed._div = {Length: Frequency, Frequency: Length, Duration: Acceleration,", "Speed._div = {Length: Frequency, Frequency: Length, Duration: Length,")], key='Speed._div[Duration]')
+seeded('C16', 'Force signature typo (s^-1)', 'R16.1',
+       [('units', "    _sidict = {'kg': 1, 'm': 1, 's':-2}\n    _mul = {}\n    _div = {}\n\n\nclass Frequency", "    _sidict = {'kg': 1, 'm': 1, 's':-1}\n    _mul = {}\n    _div = {}\n\n\nclass Frequency")])
+seeded('C16', '__mul__ consults the _div table', 'R16.2',
+       [('units', "        if type(other) in type(self)._mul:\n            newclass = type(self)._mul[type(other)]", "        if type(other) in type(self)._div:\n            newclass = type(self)._div[type(other)]")], key='__mul__')
+seeded('C16', 'SI division adds the signatures', 'R16.2',
+       [('units', "            ret._sisig = list(map(lambda x, y: x - y, self.sisig(), other.sisig()))", "            ret._sisig = list(map(lambda x, y: x + y, self.sisig(), other.sisig()))")], key='__truediv__')
+seeded('C16', 'named quotient computed with *', 'R16.2',
+       [('units', "            return newclass(float(self) / float(other),\n                            newclass._baseunit)", "            return newclass(float(self) * float(other),\n                            newclass._baseunit)")], key='__truediv__')
+seeded('C16', 'signature key unknown to SI.SIUNITS', 'R16.3',
+       [('units', "    _sidict = {'rad': 1}\n", "    _sidict = {'radian': 1}\n")], key='Angle')
+seeded('C16', 'as_quantity ignores the signature', 'R16.4',
+       [('units', "        if quantity.sisig() != self.sisig():\n            raise ValueError(f\"SI unit of {quantity} is not {self._unit}\")\n", "")])
+seeded('C16', 'SI.__sub__ checks only the type again', 'R16.5',
+       [('units', "        if type(self) != type(other) or self._sisig != other._sisig:\n            raise ValueError(\"subtracting incompatible quantities\")", "        if type(self) != type(other):\n            raise ValueError(\"subtracting incompatible quantities\")")], key='SI.__sub__')
+seeded('C16', 'Quantity.__le__ accepts any operand', 'R16.5',
+       [('units', "        if not type(self) == type(other):\n            raise TypeError(f\"comparing incompatible quantities \" \n                    +f\"{type(self).__name__} and {type(other).__name__}\")\n        return float(self) <= float(other)\n         \n    def __gt__(self, other) -> bool:\n        \"\"\"\n        Return whether this quantity is greater than the other quantity.",
+         "        return float(self) <= float(other)\n         \n    def __gt__(self, other) -> bool:\n        \"\"\"\n        Return whether this quantity is greater than the other quantity.")], key='Quantity.__le__')
+seeded('C16', 'Quantity.__sub__ adds', 'R16.6',
+       [('units', "        if (type(self) != type(other)):\n            raise ValueError(\"subtracting incompatible quantities\")\n        return self._val(float(self) - float(other))", "        if (type(self) != type(other)):\n            raise ValueError(\"subtracting incompatible quantities\")\n        return self._val(float(self) + float(other))")], key='Quantity.__sub__')
+benign('C16', 'SI signature combined with a comprehension over zip',
+       [('units', "            ret._sisig = list(map(lambda x, y: x + y, self.sisig(), other.sisig()))", "            ret._sisig = [a + b for a, b in zip(self.sisig(), other.sisig())]")])
+benign('C16', 'SI.__add__ guard rewritten by De Morgan',
+       [('units', "        if type(self) != type(other) or self._sisig != other._sisig:\n            raise ValueError(\"adding incompatible quantities\")", "        if not (type(self) == type(other) and self._sisig == other._sisig):\n            raise ValueError(\"adding incompatible quantities\")")])
+
+# =====================================================================================================  C17
+seeded('C17', 'base unit factor not 1', 'R17.1', [('units', "    _units = {'m/s2': 1.0, 'm/sec^2': 1.0,", "    _units = {'m/s2': 1.5, 'm/sec^2': 1.0,")], key='Acceleration')
+seeded('C17', 'display table holds a float', 'R17.2', [('units', "    _displayunits = {'deg': '°', 'dg': '°', 'arcmin': '\\'', 'arcsec': '\"'}", "    _displayunits = {'deg': '°', 'dg': 0.0174532925199433, 'arcmin': '\\'', 'arcsec': '\"'}")], key='Angle')
+seeded('C17', 'alias with a different factor', 'R17.3', [('units', "'km/hr^2': 7.71604938271605E-5,\n", "'km/hr^2': 7.71604938271605E-4,\n")], key='Acceleration')
+seeded('C17', 'description missing for a unit', 'R17.4', [('units', "                     'g': 'standard gravity', 'Gal': 'gal'}", "                     'g': 'standard gravity'}")], key='Acceleration')
+seeded('C17', 'negative factor', 'R17.5', [('units', "              'Gal': 0.01}", "              'Gal': -0.01}")], key='Gal')
+seeded('C17', 'duplicate key in a unit table', 'R17.6', [('units', "    _units = {'rad': 1.0, '%': 0.00999966668666524,", "    _units = {'rad': 1.0, 'rad': 2.0, '%': 0.00999966668666524,")], key='rad')
+seeded('C17', 'compound unit km/h with a typo', 'R17.7', [('units', "'km/h': 0.2777777777777778,", "'km/h': 0.2877777777777778,")], key='km/h')
+seeded('C17', 'per-Angstrom reciprocal again', 'R17.7', [('units', "': 1.0E10, '/A': 1.0E10}\n", "': 1.0E-10, '/A': 1.0E10}\n")], key='LinearDensity')
+seeded('C17', 'comma deleted from __all__', 'R17.8', [('units', "    \"Length\",\n    \"LinearDensity\",", "    \"Length\"\n    \"LinearDensity\",")])
+seeded('C17', '__new__ divides by the factor', 'R17.9', [('units', "        basevalue = value * unitmultiplier", "        basevalue = value / unitmultiplier")], key='__new__')
+seeded('C17', 'as_unit re-converts through the unit', 'R17.9', [('units', "        ret = type(self)(self.si)\n        ret._unit = newunit", "        ret = type(self)(self.displayvalue * self._units[self._unit] / self._units[newunit], newunit)\n        ret._unit = newunit")], key='as_unit')
+seeded('C17', 'displayvalue multiplies', 'R17.9', [('units', "        return float(self) / self._units[self._unit]", "        return float(self) * self._units[self._unit]")], key='displayvalue')
+benign('C17', 'table literal reformatted', [('units', "    _sidict = {'m': 1, 's':-2}\n    _mul = {}\n    _div = {}\n\n\nclass Angle", "    _sidict = {\n        'm': 1,\n        's': -2,\n    }\n    _mul = {}\n    _div = {}\n\n\nclass Angle")])
+
+# =====================================================================================================  C18
+seeded('C18', 'read-only check dropped from Bool.set_value', 'R18.1',
+       [('parameters', "        if self.read_only:\n            raise ValueError(f\"parameter {self.key} is read only\")\n        if not isinstance(value, bool):", "        if not isinstance(value, bool):")], key='InputParameterBool')
+seeded('C18', 'type check dropped from Int.set_value', 'R18.1',
+       [('parameters', "        if not isinstance(value, int):\n            raise TypeError(f\"parameter value {value} not an int\")\n", "")], key='InputParameterInt')
+seeded('C18', 'bounds check dropped from Float.set_value', 'R18.2',
+       [('parameters', "        if not isinstance(value, (float, int)):\n            raise TypeError(f\"parameter value {value} not a number\")\n        if not self._min <= value <= self._max:\n            raise ValueError(f\"parameter value {value} not between \" + \\\n                             f\"{self._min} and {self._max}\")\n", "        if not isinstance(value, (float, int)):\n            raise TypeError(f\"parameter value {value} not a number\")\n")], key='InputParameterFloat')
+seeded('C18', 'upper bound dropped from Int.set_value', 'R18.2',
+       [('parameters', "            raise TypeError(f\"parameter value {value} not an int\")\n        if not self._min <= value <= self._max:", "            raise TypeError(f\"parameter value {value} not an int\")\n        if not self._min <= value:")], key='InputParameterInt')
+seeded('C18', 'option check dropped from SelectionList.set_value', 'R18.2',
+       [('parameters', "        if not value in self._options:\n            raise ValueError(f\"value {value} is not a valid option \" \\\n                             +f\"from {self._options}\")\n", "")], key='InputParameterSelectionList')
+seeded('C18', 'Quantity.set_value accepts any Quantity type', 'R18.2',
+       [('parameters', "        if not isinstance(value, self._type):", "        if not isinstance(value, (Quantity, float)):")], key='InputParameterQuantity')
+seeded('C18', 'reset_to_default overwrites the default', 'R18.3',
+       [('parameters', "    @property    \n    def display_priority(self) -> float:", "    def make_default(self):\n        self._default_value = self._value\n\n    @property    \n    def display_priority(self) -> float:")], key='_default_value')
+seeded('C18', 'set_parameter assigns the value property again', 'R18.4',
+       [('model', "        self._input_parameters.get(key).set_value(value)", "        self._input_parameters.get(key).value = value")])
+seeded('C18', 'Str parameter registers before validating again', 'R18.5',
+       [('parameters', "        if not isinstance(default_value, str):\n            raise TypeError(f\"default value {default_value} is not a str\")\n        super().__init__(key, name, default_value, display_priority,\n                         parent=parent, description=description,\n                         read_only=read_only)\n\n    @property    \n    def value(self) -> str:",
+         "        super().__init__(key, name, default_value, display_priority,\n                         parent=parent, description=description,\n                         read_only=read_only)\n        if not isinstance(default_value, str):\n            raise TypeError(f\"default value {default_value} is not a str\")\n\n    @property    \n    def value(self) -> str:")], key='InputParameterStr')
+seeded('C18', 'map.add inserts before the duplicate test', 'R18.6',
+       [('parameters', "        if input_parameter.key in self._value.keys():\n            raise ValueError(f\"duplicate key {input_parameter.key} in map {self}\")\n        input_parameter._parent = self\n        self._value[input_parameter.key] = input_parameter\n", "        input_parameter._parent = self\n        self._value[input_parameter.key] = input_parameter\n")], key='duplicate')
+seeded('C18', 'children sorted descending', 'R18.6',
+       [('parameters', "                       key=lambda item: item[1])}", "                       key=lambda item: item[1], reverse=True)}")], key='sort')
+seeded('C18', '__ge__ implemented with >', 'R18.7',
+       [('parameters', "        return self.display_priority >= other.display_priority ", "        return self.display_priority > other.display_priority ")], key='__ge__')
+seeded('C18', 'Int.set_value stores before the bounds check', 'R18.8',
+       [('parameters', "        if not isinstance(value, int):\n            raise TypeError(f\"parameter value {value} not an int\")\n        if not self._min <= value <= self._max:", "        if not isinstance(value, int):\n            raise TypeError(f\"parameter value {value} not an int\")\n        self._value = value\n        if not self._min <= value <= self._max:")], key='InputParameterInt')
+benign('C18', 'Float type check as two isinstance calls',
+       [('parameters', "        if not isinstance(value, (float, int)):\n            raise TypeError(f\"parameter value {value} not a number\")", "        if not (isinstance(value, float) or isinstance(value, int)):\n            raise TypeError(f\"parameter value {value} not a number\")")])
+benign('C18', 'read-only guard on the field',
+       [('parameters', "        if self.read_only:\n            raise ValueError(f\"parameter {self.key} is read only\")\n        if not isinstance(value, bool):", "        if self._read_only:\n            raise ValueError(f\"parameter {self.key} is read only\")\n        if not isinstance(value, bool):")])
